@@ -27,7 +27,7 @@ RULE = (
     "(document with planted examples) -> example cases / received requests; one evaluation per planted example plus one per case. Non-trivial: the operation "
     "has >=2 planted examples on different inputs, or an example below the top level (property / anyOf branch); distinct by canonical JSON of the document + example"
 )
-ASSUMPTIONS = ["planted values are unique per document so they can be recognised", "bodies assembled from property-level examples must contain the planted property values, not be schema-valid as a whole"]
+ASSUMPTIONS = ["planted values are unique per document so they can be recognised", "bodies assembled from property-level examples must contain the planted property values and every property the schema requires (presence only; through allOf branches and nesting)"]
 
 CONT = {"query": "query", "header": "headers", "cookie": "cookies", "path": "path_parameters"}
 
@@ -109,8 +109,28 @@ def document(draw):
                         vs = [fresh(typ) for _ in range(draw(st.integers(1, 3)))]
                         props[pn]["examples"] = vs
                         planted += [["body.prop", pn, v, "property.examples", True] for v in vs]
-                e = {"schema": {"type": "object", "properties": props, "required": draw(st.lists(st.sampled_from(sorted(props)), unique=True))}}
+                required = draw(st.lists(st.sampled_from(sorted(props)), unique=True))
+                e = {"schema": {"type": "object", "properties": props, "required": required}}
                 pl = draw(st.sampled_from(["none", "example", "examples", "schema.example"]))
+                shape = draw(st.sampled_from(["flat", "flat", "allOf", "nested-allOf"])) if pl == "none" else "flat"
+                if shape != "flat":
+                    # base + extension: several object branches, each with its own `required`
+                    names = sorted(props)
+                    cut = draw(st.integers(0, len(names)))
+                    groups = [g for g in (names[:cut], names[cut:]) if g] or [names]
+                    if draw(st.booleans()):
+                        groups.reverse()
+                    branches = [{"type": "object", "properties": {k: props[k] for k in g}, "required": [k for k in g if k in required]} for g in groups]
+                    if draw(st.booleans()):
+                        branches.insert(draw(st.integers(0, len(branches))), {"type": "object", "properties": {"extra": {"type": "integer"}}, "required": ["extra"]})
+                    combined = {"allOf": branches}
+                    if shape == "nested-allOf":
+                        e["schema"] = {"type": "object", "properties": {"pet": combined}, "required": ["pet"]}
+                        for entry in planted:
+                            if entry[0] == "body.prop" and entry[3].startswith("property.") and entry[1] in props and "." not in entry[1]:
+                                entry[1] = "pet." + entry[1]
+                    else:
+                        e["schema"] = combined
 
                 def mk():
                     return {k: fresh(v["type"]) for k, v in props.items()}
@@ -135,7 +155,35 @@ def document(draw):
     doc = {"openapi": "3.0.2", "info": {"title": "t", "version": "1"}, "paths": {path: {"post": op}, "/plain": {"get": {"parameters": [{"name": "n", "in": "query", "schema": {"type": "integer"}}], "responses": {"200": {"description": "ok"}}}}}}
     if components:
         doc["components"] = {"examples": components}
-    return {"doc": doc, "path": path, "planted": planted}
+    # an earlier fuzzing run in which every operation failed, sharing its Hypothesis database with the examples run
+    return {"doc": doc, "path": path, "planted": planted, "prior_failing_run": draw(st.integers(0, 2)) == 0}
+
+
+def dig(body, dotted: str):
+    """(found, value) of a possibly nested property `a.b` in a JSON body."""
+    node = body
+    for part in dotted.split("."):
+        if not isinstance(node, dict) or part not in node:
+            return False, None
+        node = node[part]
+    return True, node
+
+
+def missing_required(schema, value, where="") -> list:
+    """Names of properties the schema requires (through `required` of the schema itself and of every allOf branch, at
+    every depth the value reaches) that the JSON value lacks. Only presence is judged."""
+    out = []
+    if not isinstance(schema, dict) or not isinstance(value, dict):
+        return out
+    branches = [schema] + [b for b in schema.get("allOf", []) if isinstance(b, dict)]
+    for b in branches:
+        for name in b.get("required", []):
+            if name not in value:
+                out.append(where + name)
+        for name, sub in (b.get("properties") or {}).items():
+            if name in value:
+                out += missing_required(sub, value[name], where + name + ".")
+    return out
 
 
 def coerce_eq(a, b) -> bool:
@@ -173,7 +221,8 @@ def check_strategies(ctx: Ctx, inp) -> None:
             if cont == "body":
                 found |= c.media_type == name and c.body == v
             elif cont == "body.prop":
-                found |= isinstance(c.body, dict) and name in c.body and c.body[name] == v
+                ok, got = dig(c.body, name)
+                found |= ok and got == v and type(got) is type(v)
             else:
                 box = getattr(c, cont) or {}
                 found |= name in box and coerce_eq(box[name], v)
@@ -186,14 +235,49 @@ def check_strategies(ctx: Ctx, inp) -> None:
             box = getattr(c, CONT[p["in"]]) or {}
             if p["name"] not in box:
                 ctx.disagree(f"strategies:required-parameter-missing:{p['in']}", f"required {p['in']} parameter {p['name']} missing from an example case", input=inp)
+        _check_required_properties(ctx, "strategies", doc, path, planted, c.media_type, None if type(c.body).__name__ == "NotSet" else c.body, inp)
+
+
+def _check_required_properties(ctx, route, doc, path, planted, media_type, body, inp) -> None:
+    """A body assembled from property-level examples: the properties without an example are filled in, so none of the
+    properties the schema requires may be missing (whole-body examples are the author's and are sent as they are)."""
+    if media_type != "application/json" or not isinstance(body, dict):
+        return
+    if any(cont == "body" and v == body for cont, _, v, *_ in planted):
+        return
+    content = doc["paths"][path]["post"].get("requestBody", {}).get("content", {})
+    schema = content.get("application/json", {}).get("schema")
+    if schema is None:
+        return
+    ctx.classes[f"{route}:assembled-body:allOf={'allOf' in json.dumps(schema)}"] += 1
+    missing = missing_required(schema, body)
+    if missing:
+        ctx.disagree(f"{route}:required-body-property-missing" + (":allOf" if "allOf" in json.dumps(schema) else ""), f"body {body} assembled from property examples lacks required {missing}; schema {schema}"[:600], input=inp)
 
 
 def check_engine(ctx: Ctx, inp) -> None:
     from vfw.harness import engine_run, loopback
 
     doc, path, planted = inp["doc"], inp["path"], inp["planted"]
+    cfg = {"phases": ["examples"], "seed": 1, "checks": [], "max_examples": 5}
+    dbdir = None
+    if inp.get("prior_failing_run"):
+        import tempfile
+
+        dbdir = tempfile.mkdtemp(prefix="vfw-c17-db-", dir="/var/tmp")
+        failing = loopback.shared(lambda req, ordinal: loopback.json_reply(500, {"error": "boom"}))
+        engine_run.run_engine(copy.deepcopy(doc), {"phases": ["fuzzing"], "seed": 1, "checks": ["not_a_server_error"], "max_examples": 3, "database_dir": dbdir}, failing)
+        cfg["database_dir"] = dbdir
+        cfg["checks"] = ["not_a_server_error"]
+        ctx.classes["engine:after-a-failing-fuzzing-run-with-a-shared-database"] += 1
     server = loopback.shared()
-    record = engine_run.run_engine(copy.deepcopy(doc), {"phases": ["examples"], "seed": 1, "checks": [], "max_examples": 5}, server)
+    try:
+        record = engine_run.run_engine(copy.deepcopy(doc), cfg, server)
+    finally:
+        if dbdir:
+            import shutil
+
+            shutil.rmtree(dbdir, ignore_errors=True)
     if record.exception:
         ctx.case(classes=["engine-exception"])
         ctx.disagree("engine:exception:" + record.exception.split(":")[0], f"engine run raised {record.exception}", input=inp)
@@ -238,7 +322,8 @@ def check_engine(ctx: Ctx, inp) -> None:
             if cont == "body":
                 found |= d["media_type"] == name and d["body"] == v
             elif cont == "body.prop":
-                found |= isinstance(d["body"], dict) and d["body"].get(name) == v
+                ok, got = dig(d["body"], name)
+                found |= ok and got == v and type(got) is type(v)
             else:
                 box = d[cont]
                 key = name.lower() if cont == "headers" else name
@@ -255,6 +340,7 @@ def check_engine(ctx: Ctx, inp) -> None:
             key = p["name"].lower() if p["in"] == "header" else p["name"]
             if key not in box:
                 ctx.disagree(f"engine:required-parameter-missing:{p['in']}", f"a request of the examples phase lacks the required {p['in']} parameter {p['name']}", input=inp)
+        _check_required_properties(ctx, "engine", doc, path, planted, d["media_type"], d["body"], inp)
 
 
 def _only_combined_with_unsendable(inp, cont, name, v) -> bool:
@@ -274,7 +360,8 @@ def _only_combined_with_unsendable(inp, cont, name, v) -> bool:
         if cont == "body":
             has = c.media_type == name and c.body == v
         elif cont == "body.prop":
-            has = isinstance(c.body, dict) and c.body.get(name) == v
+            ok, got = dig(c.body, name)
+            has = ok and got == v
         else:
             box = getattr(c, cont) or {}
             has = name in box and coerce_eq(box[name], v)
